@@ -20,7 +20,7 @@ META = {
                    "operands are not written (one named exception: the final rescale of amen_divide's own cores). Does NOT decide the accuracy "
                    "of the quotient (inherits the convergence behaviour of AMEn).",
     "assumptions": ["real operands", "generic sizes: rank families at different positions / of different trains are independent"],
-    "floors": {"ROUTING": 3, "E5-CHAIN": 12, "IFACE-TYPE": 40, "DEF-ATTR": 10},
+    "floors": {"ZERO-NORM": 6, "ROUTING": 3, "E5-CHAIN": 12, "IFACE-TYPE": 40, "DEF-ATTR": 10},
 }
 ANCHORS = ["_division.amen_divide", "_division.local_product", "_division.LinearOp.matvec", "_division.LinearOp.apply_prec", "_division.compute_phi_fwd_A",
            "_division.compute_phi_bck_A", "_division.compute_phi_fwd_rhs", "_division.compute_phi_bck_rhs", "_tt_base.TT.__truediv__",
@@ -119,6 +119,8 @@ def check(model: Model, tier: str):
             obs.append(Ob("E3-PARAM", f"{fn}:E3-PARAM:{p}", VIOLATED if effs else OK, effs[0].where if effs else model.where(fo), p,
                           f"operand `{p}` is written: {effs[0].construct} in {effs[0].func}" if effs else
                           ("operand not written" + (f" (named exception: {named[0].construct} - zero-sweep path only, multiplication by one; {exc_why})" if named else ""))))
+    from ..normguard import rule_zero_norm, rule_arnoldi_seed
+    obs += rule_zero_norm(model, "_division.amen_divide")
     fs = [model.func(a) for a in ANCHORS]
     exc = {("_division.amen_divide", "time_total"): "verbose timing only", ("_division.amen_divide", "tme_sweep"): "verbose timing only",
            ("_division.amen_divide", "time_local"): "verbose timing only", ("_division.amen_divide", "swp"): "read only in the verbose report after a zero-sweep run",
